@@ -149,7 +149,7 @@ SPECS = {
         "engines": [
             {"name": "pubsub", "race": True, "n": {"quick": 48, "thorough": 400}},
         ],
-        "explanation": "Theorems on a model whose atomic actions are the critical sections of server/backend/pubsub (Upsert callback, sub.Close, Get, subs.Delete, Delete callback, publisher enqueue, publisher tick, stalled consumer) under arbitrary interleaving with any number of threads: invariant (an object with members is the current map entry and its publisher runs), no lost event (once Subscribe(s) returned, an event whose Publish starts later stays delivered / queued in the open object s belongs to / s closed, through every interleaving in which s has not begun to unsubscribe; one tick delivers it), and the map entry is removed when the last member has gone. Engine, built with the race detector: sequential sessions of whole calls on the real PubSub replayed on the model (ClientIDs and received events after every call), and concurrent stress (4 subscribing/unsubscribing goroutines, 3 publishers, stalled consumers): every (publish, subscription established before it and kept for the delivery bound) pair must be delivered, no panic, no data race, ClientIDs empty at the end.",
+        "explanation": "Theorems on a model whose atomic actions are the critical sections of server/backend/pubsub (Upsert callback, sub.Close, Get, subs.Delete, Delete callback, publisher enqueue, publisher tick, stalled consumer) under arbitrary interleaving with any number of threads: invariant (an object with members is the current map entry and its publisher runs), no lost event (once Subscribe(s) returned, an event whose Publish starts later stays delivered / queued in the open object s belongs to / s closed, through every interleaving in which s has not begun to unsubscribe; one tick delivers it), and the map entry is removed when the last member has gone. Engine, built with the race detector: sequential sessions of whole calls on the real PubSub replayed on the model (ClientIDs and received events after every call), and concurrent stress (4 subscribing/unsubscribing goroutines, 3 publishers, stalled consumers): every (publish, subscription established before it and kept for the delivery bound) pair must be delivered, no panic, no data race, ClientIDs empty at the end. End to end: on a real server one SDK client watches a document, another pushes changes one at a time; every stored push has to reach the watcher as DocumentChanged within 4 s - on a plain project and on one whose event webhook endpoint answers 500.",
         "assumptions": [
             "PARTIAL: 'within bounded time' is wall-clock: checked on the implementation with a 1.2 s bound (publisher window 100 ms; generous so that a loaded machine raises no false alarm), not proved",
             "the model abstracts the capacity-1 channel and the 100 ms publish timeout into 'delivery succeeds unless the consumer stalled (AStall)'; mutual exclusion of the critical sections themselves (cmap shard lock, subscription mutex) is what the race detector run checks",
